@@ -16,9 +16,10 @@ Open Scope list_scope.
 
 Definition ledger := list (idk * Z).
 
-(* constants: -1 (server generated node id / unmap), root node 0, the client's default group *)
+(* constants: -1 (server generated node id / unmap) and the root node 0; the default groups of the logins are ids
+   the server handed out at login: they are in the ledger from the start (invariant io_dg) *)
 Definition known (L : ledger) (k : idk) (i : Z) : Prop :=
-  i = -1 \/ (k = KNode /\ (i = 0 \/ i = default_group)) \/ In (k, i) L.
+  i = -1 \/ (k = KNode /\ i = 0) \/ In (k, i) L.
 
 Lemma known_mono : forall L L' k i, incl L L' -> known L k i -> known L' k i.
 Proof. intros L L' k i H [A|[A|A]]; [left | right; left | right; right]; auto. Qed.
@@ -186,19 +187,21 @@ Record InvO (L : ledger) (s : st) : Prop := {
   io_buf : forall b x a, get_buf s b = Some x -> b_num x = PInt a -> known L KBuf a;
   io_bus : forall u x a, get_bus s u = Some x -> u_index x = PInt a ->
            exists c, u_chans x = PInt c /\ 1 <= c /\ forall i, a <= i < a + c -> known L KBus i;
-  io_blk : forall blk i, In blk (bblocks s) -> In i (zrange (fst blk) (Z.to_nat (snd blk))) -> known L KBuf i
+  io_blk : forall blk i, In blk (bblocks s) -> In i (zrange (fst blk) (Z.to_nat (snd blk))) -> known L KBuf i;
+  io_dg : known L KNode (dgroup s) /\ forall g, In g (dgroups s) -> known L KNode g
 }.
 
 Definition Inv (L : ledger) (s : st) : Prop := InvO L s /\ Forall (Forall (Good L)) (stack s).
 
 Lemma invO_mono : forall L L' s, incl L L' -> InvO L s -> InvO L' s.
 Proof.
-  intros L L' s H [A B C D E]. constructor; auto.
+  intros L L' s H [A B C D E F]. constructor; auto.
   - intros n x z G Ez. eapply known_mono; eauto.
   - intros b x a G Ea. eapply known_mono; eauto.
   - intros u x a G Ea. destruct (D u x a G Ea) as [c [Ec [Hc K]]]. exists c. repeat split; auto.
     intros i Hi. eapply known_mono; eauto.
   - intros blk i Hb Hi. eapply known_mono; eauto.
+  - destruct F as [F1 F2]. split; [eapply known_mono; eauto | intros g Hg; eapply known_mono; eauto].
 Qed.
 
 Lemma nth_app_one : forall {A} (l : list A) (n : A) i x,
@@ -248,13 +251,13 @@ Qed.
 
 Lemma invO_add_node_none : forall L s, InvO L s -> InvO L (add_node s None).
 Proof.
-  intros L s [A B C D E]. constructor; auto.
+  intros L s [A B C D E F]. constructor; auto.
   - apply inv_objs_add_node; auto.
   - intros n x z G Ez. destruct (get_node_add _ _ _ _ G) as [K|K]; [eauto | discriminate K].
 Qed.
 Lemma invO_add_node : forall L s z k, InvO L s -> known L KNode z -> InvO L (add_node s (Some (mkNode (PInt z) k))).
 Proof.
-  intros L s z k [A B C D E] Hz. constructor; auto.
+  intros L s z k [A B C D E F] Hz. constructor; auto.
   - apply inv_objs_add_node; auto.
   - intros n x z' G Ez. destruct (get_node_add _ _ _ _ G) as [K|K]; [eauto|].
     inversion K; subst. simpl in Ez. inversion Ez; subst. exact Hz.
@@ -262,14 +265,14 @@ Qed.
 
 Lemma invO_add_buf_none : forall L s, InvO L s -> InvO L (add_buf s None).
 Proof.
-  intros L s [A B C D E]. constructor; auto.
+  intros L s [A B C D E F]. constructor; auto.
   - apply inv_objs_add_buf; auto.
   - intros b x a G Ea. destruct (get_buf_add _ _ _ _ G) as [K|K]; [eauto | discriminate K].
 Qed.
 Lemma invO_add_buf : forall L s a fr ch, InvO L s -> known L KBuf a -> ion fr = true -> ion ch = true ->
   InvO L (add_buf s (Some (mkBuf (PInt a) fr ch))).
 Proof.
-  intros L s a fr ch [A B C D E] Ha Hf Hc. constructor; auto.
+  intros L s a fr ch [A B C D E F] Ha Hf Hc. constructor; auto.
   - apply inv_objs_add_buf; auto. cbn [buf_ok b_num b_frames b_chans ion]. rewrite Hf, Hc. reflexivity.
   - intros b x a' G Ea. destruct (get_buf_add _ _ _ _ G) as [K|K]; [eauto|].
     inversion K; subst. simpl in Ea. inversion Ea; subst. exact Ha.
@@ -277,14 +280,14 @@ Qed.
 
 Lemma invO_add_bus_none : forall L s, InvO L s -> InvO L (add_bus s None).
 Proof.
-  intros L s [A B C D E]. constructor; auto.
+  intros L s [A B C D E F]. constructor; auto.
   - apply inv_objs_add_bus; auto.
   - intros u x a G Ea. destruct (get_bus_add _ _ _ _ G) as [K|K]; [eauto | discriminate K].
 Qed.
 Lemma invO_add_bus : forall L s au a c, InvO L s -> 1 <= c -> (forall i, a <= i < a + c -> known L KBus i) ->
   InvO L (add_bus s (Some (mkBus au (PInt a) (PInt c)))).
 Proof.
-  intros L s au a c [A B C D E] Hc Hr. constructor; auto.
+  intros L s au a c [A B C D E F] Hc Hr. constructor; auto.
   - apply inv_objs_add_bus; auto.
   - intros u x a' G Ea. destruct (get_bus_add _ _ _ _ G) as [K|K]; [eauto|].
     inversion K; subst. simpl in Ea. inversion Ea; subst. exists c. repeat split; auto.
@@ -293,11 +296,11 @@ Qed.
 Lemma invO_set_bblocks : forall L s B, InvO L s ->
   (forall blk i, In blk B -> In i (zrange (fst blk) (Z.to_nat (snd blk))) -> known L KBuf i) ->
   InvO L (set_bblocks s B).
-Proof. intros L s B [A N Bf U K] H. constructor; auto. Qed.
+Proof. intros L s B [A N Bf U K F] H. constructor; auto. Qed.
 Lemma invO_set_cblocks : forall L s B, InvO L s -> InvO L (set_cblocks s B).
-Proof. intros L s B [A N Bf U K]. constructor; auto. Qed.
+Proof. intros L s B [A N Bf U K F]. constructor; auto. Qed.
 Lemma invO_set_ablocks : forall L s B, InvO L s -> InvO L (set_ablocks s B).
-Proof. intros L s B [A N Bf U K]. constructor; auto. Qed.
+Proof. intros L s B [A N Bf U K F]. constructor; auto. Qed.
 
 Lemma in_blk_remove : forall a l b, In b (blk_remove a l) -> In b l.
 Proof.
@@ -329,7 +332,7 @@ Qed.
 
 Lemma invO_clear_buf : forall L s b, InvO L s -> InvO L (set_buf s b (mkBuf PNone PNone PNone)).
 Proof.
-  intros L s b [A N Bf U K]. constructor; auto.
+  intros L s b [A N Bf U K F]. constructor; auto.
   - apply inv_objs_split in A. apply inv_objs_split. destruct A as [A1 [A2 A3]]. cbn [set_buf nodes bufs buses].
     split; [assumption | split; [apply forallb_set_nth; [assumption | reflexivity] | assumption]].
   - intros b' x a G Ea. unfold get_buf, set_buf in G. cbn [bufs] in G.
@@ -340,7 +343,7 @@ Proof.
 Qed.
 Lemma invO_clear_bus : forall L s u au, InvO L s -> InvO L (set_bus s u (mkBus au PNone PNone)).
 Proof.
-  intros L s u au [A N Bf U K]. constructor; auto.
+  intros L s u au [A N Bf U K F]. constructor; auto.
   - apply inv_objs_split in A. apply inv_objs_split. destruct A as [A1 [A2 A3]]. cbn [set_bus nodes bufs buses].
     split; [assumption | split; [assumption | apply forallb_set_nth; [assumption | reflexivity]]].
   - intros u' x a G Ea. unfold get_bus, set_bus in G. cbn [buses] in G.
@@ -362,7 +365,7 @@ Proof.
   apply invO_set_bblocks; [exact H|]. intros blk i Hb Hi.
   destruct (in_blk_insert _ _ _ Hb) as [E|E].
   - subst blk. cbn [fst snd] in Hi. rewrite Nat2Z.id in Hi. apply Hr. exact Hi.
-  - destruct H as [_ _ _ _ K]. eapply K; eauto.
+  - destruct H as [_ _ _ _ K _]. eapply K; eauto.
 Qed.
 
 Lemma alloc_bufnum_new : forall s bufnum addr n z s1,
@@ -609,7 +612,7 @@ Definition wf_op (n : nat) (s : st) (o : op) : bool :=
   | ONodeMoveBefore _ _ | ONodeMoveAfter _ _ | ONodeMoveToHead _ _ | ONodeMoveToTail _ _ => true
   | OGroupFreeAll _ | OGroupDeepFree _ | OGroupDumpTree _ _ => true
   | OReorder ns _ _ => forallb (node_exists s) ns && nonempty ns
-  | OFreeDefaultGroup | OSendDefaultGroups | ODumpOsc _ => true
+  | OFreeDefaultGroup _ | OSendDefaultGroups | ODumpOsc _ => true
   | ODefSend _ c => compl_good c PNone
   | ODefLoad cmd path c => is_load_cmd cmd && plain path && compl_good c PNone
   | OBufNew addr fr ch bufnum c _ => ion fr && ion ch && new_compl_good c bufnum addr
@@ -668,8 +671,8 @@ Lemma target_known : forall L s tg, InvO L s -> target_ok s tg = true ->
   exists z, target_id s tg = PInt z /\ known (tg_ids tg ++ L) KNode z.
 Proof.
   intros L s tg I T. destruct tg; cbn [target_id tg_ids app].
-  - exists default_group. split; [reflexivity|]. right. left. auto.
-  - exists default_group. split; [reflexivity|]. right. left. auto.
+  - exists (dgroup s). split; [reflexivity|]. apply (proj1 (io_dg _ _ I)).
+  - exists (dgroup s). split; [reflexivity|]. apply (proj1 (io_dg _ _ I)).
   - exists 0. split; [reflexivity|]. right. left. auto.
   - unfold target_ok in T. unfold node_id_of.
     destruct (nth_error (nodes s) i) as [[y|]|] eqn:E; try discriminate.
